@@ -304,12 +304,15 @@ RULE_HIST = ("random histories (reset, open with random RAM index mode x RWMode 
 
 def check_C01(run):
     check_hist_generic(run, [("kv", "kv", 400, 8000, RULE_HIST + "; profile kv: Put/PutWithTimestamp/Delete/Get/GetAll/"
-                              "RangeScan/PrefixScan/PrefixSearchScan, TTLs on both sides of expiry, exact-fill and oversize entries")])
+                              "RangeScan/PrefixScan/PrefixSearchScan, TTLs on both sides of expiry, exact-fill and oversize entries"),
+                             ("kvdeep", "kvdeep", 150, 3000, RULE_HIST + "; profile kvdeep: 48 keys in one bucket inserted in scattered "
+                              "order over 30 transactions, so that the real B+ tree has several levels and inner leaves split")])
 
 
 def check_C03(run):
     check_hist_generic(run, [("scan", "scan", 400, 8000, RULE_HIST + "; profile scan: dense key space with many deleted and "
                               "expired keys inside the scanned prefixes, offset 0..5, limit -1..5, regexps"),
+                             ("kvdeep", "kvdeep", 100, 2000, RULE_HIST + "; profile kvdeep (multi-level B+ tree)"),
                              ("pages", "pages", 40, 600, "paging sweep: for random contents over 7 keys x {live, deleted, expired, "
                               "absent} every (prefix, offset 0..n+1, limit 1..n+1) PrefixScan and offset-0 PrefixSearchScan; the "
                               "harness also concatenates the pages offset=0,limit,2*limit.. and compares with the live keys")])
